@@ -636,7 +636,7 @@ func (e *histEnv) emit(id int, viaVerb bool) {
 	}
 	var pcs [1]uintptr
 	runtime.Callers(1, pcs[:])
-	if shape%3 == 2 {
+	if shape == 2 || shape == 5 || shape == 8 || shape == 14 {
 		pcs[0] = 0 // a record without a call site (what the adapters pass when the source is unknown)
 	}
 	l.WriteThru(context.Background(), sev, ts, pcs[0], msg, attrs)
